@@ -22,7 +22,10 @@ TRUSTED = ["Coq 8.16.1 kernel, vm_compute for the correspondence evaluation",
            "NumPy (np.percentile linear method = interpolation at virtual index (n-1)q/100 of the sorted data; "
            "np.argmax = first maximum), vg"]
 CASE_IMPORTS = [("PW.model", "M_plane"), ("PW.model", "M_box"), ("PW.model", "M_pointcloud")]
-ASSUMPTIONS = ["theorems are about exact real arithmetic; the clause 'a few units of rounding at the maximum faces' is a "
+ASSUMPTIONS = ["known finding percentile_tiny_axis_rejected: pointcloud.percentile raises ValueError for non-zero axes whose components "
+               "are all <= 1e-8 in size (vg.almost_zero is absolute); the point theorem is therefore _partial (axes that are "
+               "not almost zero) and the _refuted theorem carries the witness",
+               "theorems are about exact real arithmetic; the clause 'a few units of rounding at the maximum faces' is a "
                "binary64 clause and is only sampled by the oracle (contains with atol = 4 ulp of the cloud magnitude)",
                "np.percentile's sort is modelled as insertion sort (proved a sorted permutation)"]
 IMPORTS = [("PW.model", "M_plane"), ("PW.model", "M_box"), ("PW.model", "M_pointcloud")]
@@ -122,7 +125,7 @@ def kernels():
         "  assert (Haz : almost_zero ROps (V3 a0 a1 a2) = false).\n"
         "  { unfold almost_zero, atol8; rops; cbn [vx vy vz].\n"
         "    match goal with |- context [Rleb ?a ?b] => destruct (Rleb_spec a b); [exfalso; lra|reflexivity] end. }\n"
-        "  unfold percentile. rewrite Haz. f_equal.\n"
+        "  unfold percentile. rewrite Haz. unfold n0; rops. rewrite percentile_q_in_range by lra. f_equal.\n"
         "  set (u := vnormalize ROps (V3 a0 a1 a2)).\n"
         "  set (c0 := vdot ROps (V3 p0 p1 p2) u). set (c1 := vdot ROps (V3 p3 p4 p5) u). set (c2 := vdot ROps (V3 p6 p7 p8) u).\n"
         "  assert (H01 : c0 < c1) by (unfold c0, c1, u; vunf; lra).\n"
@@ -248,8 +251,12 @@ def gen_cases(rng, n, tier):
                     rng.random() < 0.25] for _ in range(rng.randint(4, 12))]
             cases.append({"kind": kind, "origin": o, "size": s, "sequence": seq})
         elif r < 0.4:
-            if rng.random() < 0.08:
+            v = rng.random()
+            if v < 0.08:
                 cases.append({"kind": "from_points_empty", "points": []})
+            elif v < 0.25:
+                # Polyline.bounding_box on empty (None) and non-empty polylines, open and closed
+                cases.append({"kind": "bounding_box", "points": [] if rng.random() < 0.4 else _cloud(rng, scale), "closed": rng.random() < 0.5})
             else:
                 cases.append({"kind": "from_points", "points": _cloud(rng, scale), "closed": rng.random() < 0.5})
         elif r < 0.47:
@@ -283,9 +290,21 @@ def gen_cases(rng, n, tier):
         else:
             pts = _cloud(rng, scale, 1, 7)
             m = rng.random()
-            if m < 0.08:
-                cases.append({"kind": "percentile_zero_axis", "points": pts, "axis": [0.0, 0.0, 2.0 ** -30 * rng.choice([0, 1])], "q": 50.0})
-            elif m < 0.12:
+            if m < 0.04:
+                cases.append({"kind": "percentile_zero_axis", "points": pts, "axis": [0.0, 0.0, 0.0], "q": 50.0})
+            elif m < 0.14:
+                # a genuine (non-zero) axis whose components are all at most 1e-8 in size: the property demands a result
+                ax = [0.0, 0.0, 0.0]
+                for j in range(3):
+                    if rng.random() < 0.6:
+                        ax[j] = rng.choice([1e-9, -1e-9, 2.0 ** -30, 2.0 ** -27, -2.0 ** -40, 5e-9])
+                if not any(ax):
+                    ax[rng.randrange(3)] = 1e-9
+                cases.append({"kind": "percentile_tiny_axis", "points": pts, "axis": ax, "q": float(rng.choice([0, 50, 100, 37]))})
+            elif m < 0.22:
+                cases.append({"kind": "percentile_bad_q", "points": pts, "axis": [x or 1.0 for x in grid_vec(rng)],
+                              "q": rng.choice([-1.0, -0.5, 100.5, 150.0, -2.0 ** -20, 100.0 + 2.0 ** -20])})
+            elif m < 0.25:
                 cases.append({"kind": "percentile_empty", "points": [], "axis": [1.0, 0.0, 0.0], "q": 50.0})
             else:
                 while True:
@@ -301,7 +320,7 @@ def gen_cases(rng, n, tier):
     return cases
 
 
-INT_KINDS = ("box", "box_negative", "from_points", "contains", "extent", "percentile")
+INT_KINDS = ("box", "box_negative", "from_points", "bounding_box", "contains", "extent", "percentile")
 
 
 def _a(x, c, shape=None):
@@ -345,6 +364,14 @@ def run_impl(c):
                     "contains_exact": [bool(b.contains(p)) for p in ps],
                     "bbox_same": bool(bb is not None and np.array_equal(bb.origin, b.origin) and np.array_equal(bb.size, b.size)),
                     "args_unchanged": bool(np.array_equal(before, ps))}
+        if kind == "bounding_box":
+            ps = _a(c["points"], c, (-1, 3))
+            bb = Polyline(ps, is_closed=c["closed"]).bounding_box
+            if bb is None:
+                return {"none": True}
+            fp = Box.from_points(ps)
+            return {"none": False, "origin": bb.origin.tolist(), "size": bb.size.tolist(),
+                    "same_as_from_points": bool(np.array_equal(bb.origin, fp.origin) and np.array_equal(bb.size, fp.size))}
         if kind == "contains":
             b = Box(_a(c["origin"], c), _a(c["size"], c))
             planes = [[getattr(b, nm).reference_point.tolist(), getattr(b, nm).normal.tolist()] for nm in PLANES]
@@ -375,6 +402,12 @@ def coq_case(c, o):
     kind = c["kind"]
     if kind.startswith("box"):
         return "CBox %s %s %s" % (qv(c["origin"]), qv(c["size"]), _res(o, lambda o: flv(o["obs"])))
+    if kind == "bounding_box":
+        if isinstance(o, dict) and "raise" in o:
+            return "CBBox %s (Some (Raise %s))" % (coq_list(qv(p) for p in c["points"]), o["raise"])
+        if o["none"]:
+            return "CBBox %s None" % coq_list(qv(p) for p in c["points"])
+        return "CBBox %s (Some (Ok %s))" % (coq_list(qv(p) for p in c["points"]), flv(o["origin"] + o["size"]))
     if kind.startswith("from_points"):
         return "CFromPoints %s %s" % (coq_list(qv(p) for p in c["points"]), _res(o, lambda o: flv(o["origin"] + o["size"])))
     if kind == "contains":
@@ -540,7 +573,10 @@ def _percentile_oracle(c, o):
     return None
 
 
-EXPECT_RAISE = {"box_negative", "from_points_empty", "extent_too_few", "percentile_zero_axis", "percentile_empty"}
+EXPECT_RAISE = {"box_negative", "from_points_empty", "extent_too_few", "percentile_zero_axis", "percentile_empty",
+                "percentile_bad_q"}
+# theorems that only restate the shape of the model (reported separately by the driver)
+DEFINITIONAL = ["C17_bounding_box_is_from_points"]
 
 
 def oracle(c, o):
@@ -550,8 +586,18 @@ def oracle(c, o):
         if not raised:
             return "%s: expected ValueError, got a result" % kind
         return None if o["raise"] == "ValueError" else "%s: expected ValueError, got %s" % (kind, o["raise"])
+    if kind == "percentile_tiny_axis" and raised:
+        return "percentile rejects the non-zero axis %r: %s: %s" % (c["axis"], o["raise"], o.get("msg"))
     if raised:
         return "unexpected exception %s: %s" % (o["raise"], o.get("msg"))
+    if kind == "bounding_box":
+        if not c["points"]:
+            return None if o["none"] else "bounding_box of an empty polyline is not None"
+        if o["none"]:
+            return "bounding_box of a non-empty polyline is None"
+        if not o["same_as_from_points"]:
+            return "Polyline.bounding_box differs from Box.from_points of its vertices"
+        return _from_points_oracle(dict(c, kind="from_points"), dict(o, args_unchanged=True, contains_atol=[True], contains_exact=[True], bbox_same=True))
     if kind == "box":
         return _box_oracle(c, o)
     if kind.startswith("from_points"):
@@ -564,4 +610,9 @@ def oracle(c, o):
 
 
 def classify(c, o, failure, disagrees):
+    # known finding: vg.almost_zero's absolute threshold (1e-8) rejects genuine axes; matched on the call site, the input
+    # class (non-zero axis with every |component| <= 1e-8) and the observed ValueError
+    if (c["kind"] == "percentile_tiny_axis" and isinstance(o, dict) and o.get("raise") == "ValueError"
+            and any(c["axis"]) and all(abs(x) <= 1e-8 for x in c["axis"])):
+        return "percentile_tiny_axis_rejected"
     return None
